@@ -29,7 +29,24 @@ Fixpoint remove {A} (k : Z) (l : list (Z * A)) : list (Z * A) :=
 
 Record cache := mkCache { c_ents : ents; c_cap : option nat }.
 
-Definition trim (c : option nat) (l : ents) : ents := match c with None => l | Some n => firstn n l end.
+(* what an entry weighs in the LRU facade (cacheex.go, _wrapper.Size): a value that implements cache.Value reports its
+   own size, anything else - nil included - counts 1.  The harness encodes this in the number itself: the hundreds
+   digits c = (v mod 10000) / 100 are 0 for a plain value and s + 1 for a cache.Value of Size() = s *)
+Definition vsize (v : val) : nat :=
+  match v with
+  | None => 1%nat
+  | Some z => let c := (z mod 10000) / 100 in if c =? 0 then 1%nat else Z.to_nat (c - 1)
+  end.
+
+(* checkCapacity: evict from the back while the total size exceeds the capacity.  Sizes are not negative, so what is
+   left is the longest front part whose total fits - possibly nothing, when the entry just written is itself too big *)
+Fixpoint fit (budget : nat) (l : ents) : ents :=
+  match l with
+  | [] => []
+  | (k, v) :: r => if Nat.leb (vsize v) budget then (k, v) :: fit (budget - vsize v) r else []
+  end.
+
+Definition trim (c : option nat) (l : ents) : ents := match c with None => l | Some n => fit n l end.
 
 (* Peek: no change of order *)
 Definition c_peek (c : cache) (k : Z) : option val := lookup k (c_ents c).
@@ -64,7 +81,7 @@ Definition is_fnil (f : fault) : bool := match f with FNil => true | _ => false 
 Definition s_unrow (s : store) (k : Z) : store := mkStore (upd (smap s) k None) (sver s).
 
 (* the value a successful write of datum d under key k stores and returns *)
-Definition newval (s : store) (k d : Z) : Z := 100 * (sver s k + 1) + d.
+Definition newval (s : store) (k d : Z) : Z := 10000 * (sver s k + 1) + d.
 Definition s_write (s : store) (k v : Z) : store := mkStore (upd (smap s) k (Some v)) (updz (sver s) k (sver s k + 1)).
 
 Definition s_load (s : store) (f : fault) (k : Z) : store * sres :=
